@@ -72,6 +72,9 @@ PROPS = {
                 ("unw1", C(Tasks=["t1"], InitMax=2, MaxObjs=4, Budget=5, ThreadLevel=False, AllowPanic=True, UnwindDrops=True, GetModes=["nb"],
                            AllowSuspend=False, AllowCancel=False), True),
                 ("unw2", C(InitMax=1, Budget=3, AllowPanic=True, UnwindDrops=True, GetModes=["nb"], AllowCancel=False), True),
+                # recycle / create timeouts: whatever is given up must be given up exactly once
+                ("rto1", C(Tasks=["t1"], InitMax=2, MaxObjs=4, Budget=6, ThreadLevel=False, RecycleTO=["finite"], CreateTO=["finite"], GetModes=["nb"],
+                           AllowFail=False, AllowCancel=False), True),
                 ("m1mix", C(InitMax=1, Budget=4, AllowTake=True, AllowRetain=True, AllowPanic=True), False),
             ],
             "thorough": [
@@ -120,11 +123,14 @@ PROPS = {
         },
     },
     "C04": {
-        "invariants": ["Inv_C04a", "Inv_C09b"], "actprops": [], "preds": ["C04a", "C04b", "C04c"],
+        "invariants": ["Inv_C04a", "Inv_C09b"], "actprops": [], "preds": ["C04a", "C04b", "C04c", "C04d"],
         "configs": {
             "quick": [
                 ("sync", C(Tasks=["t1"], InitMax=2, Budget=5, NPre=1, NPost=1, NPc=1, ThreadLevel=False, CreateTO=["finite"], RecycleTO=["finite"]), True),
                 ("async2", C(InitMax=1, Budget=3, NPre=2, AsyncPre=[2], NPost=2, AsyncPost=[1], NPc=2, AsyncPc=[2], ThreadLevel=False, Lifo=True), True),
+                # NoRuntimeSpecified surfaces as such (and costs no idle object) whatever the wait mode
+                ("nort", C(Tasks=["t1"], InitMax=2, Budget=5, HasRuntime=False, GetModes=["nb", "bl"], RecycleTO=["none", "finite"], AllowSuspend=False,
+                           AllowCancel=False, ThreadLevel=False), True),
             ],
             "thorough": [
                 ("sync", C(InitMax=2, Budget=5, NPre=1, NPost=1, NPc=1, ThreadLevel=False, CreateTO=["finite"], RecycleTO=["finite"]), True),
@@ -161,7 +167,7 @@ PROPS = {
                 ("r1q", C(InitMax=1, Budget=4, ResizeTargets=[0, 2], AllowSuspend=False, AllowCancel=False), True),
                 ("r1", C(InitMax=1, Budget=5, ResizeTargets=[0, 2], AllowTake=True), True),
                 ("r2", C(InitMax=2, Budget=4, ResizeTargets=[0, 1, 3], AllowRetain=True), True),
-                ("t3", C(Tasks=["t1", "t2", "t3"], InitMax=2, Budget=5, MaxObjs=4, ResizeTargets=[0, 1, 3], AllowClose=True), False),
+                ("t3", C(Tasks=["t1", "t2", "t3"], InitMax=2, Budget=4, MaxObjs=4, ResizeTargets=[0, 1, 3], AllowClose=True), False),
             ],
         },
     },
@@ -177,6 +183,8 @@ PROPS = {
                  {"hcfg": {"build_order": 2}}),
                 ("lifo_cfg2", C(Tasks=["t1"], InitMax=2, MaxObjs=3, Budget=5, ThreadLevel=False, AllowSuspend=False, AllowCancel=False, AllowFail=False, GetModes=["nb"], Lifo=True), True,
                  {"hcfg": {"build_order": 3}}),
+                # a get() cancelled inside a pre_recycle hook: the candidate is gone, the order of the others is unchanged
+                ("cancelpre", C(Tasks=["t1"], InitMax=3, MaxObjs=4, Budget=6, ThreadLevel=False, NPre=1, AsyncPre=[1], AllowFail=False, GetModes=["nb"]), True),
                 ("shrink", C(Tasks=["t1"], InitMax=4, MaxObjs=4, Budget=7, ThreadLevel=False, ResizeTargets=[2, 3], AllowFail=False, AllowSuspend=False, AllowCancel=False, GetModes=["nb"]), True),
                 ("two", C(InitMax=3, MaxObjs=3, Budget=5, ThreadLevel=False, AllowRetain=True, AllowSuspend=False, AllowCancel=False, AllowFail=False, GetModes=["nb"]), True),
             ],
@@ -286,7 +294,7 @@ U = {"kind": "unmanaged", "invariants": ["Inv_C05_places", "Inv_C12_late", "Inv_
      "preds": ["U10a", "U10b", "U10c", "U12a", "U12b"]}
 PROPS["C10"] = {
     "invariants": ["Inv_C02a", "Inv_C02b", "Inv_C02c", "Inv_C09b", "Inv_C04a"], "actprops": [],
-    "preds": ["C04c", "C10b", "C10c", "C10d"],
+    "preds": ["C04c", "C04d", "C10b", "C10c", "C10d"],
     "configs": {
         "quick": [
             {"name": "build", "cases": "build", "spec": "ManagedBuild.tla", "invariants": ["Total"]},
@@ -301,6 +309,8 @@ PROPS["C10"] = {
             # particular): the per-call value decides, time may pass without any deadline
             ("percall", C(Tasks=["t1"], InitMax=1, Budget=4, GetModes=["bl", "timed"], CreateTO=["none", "finite"], RecycleTO=["none", "finite"], AllowCancel=False, AllowFail=False, ThreadLevel=False), True,
              {"hcfg": {"pool_level": True, "pool_wait": "timed", "pool_cto": "finite", "pool_rto": "finite"}}),
+            # a timed get() that meets a stale permit (left over from a shrink while the permit was in use) still waits
+            ("stale", C(InitMax=1, Budget=5, ResizeTargets=[0, 1], GetModes=["timed"], AllowSuspend=False, AllowCancel=False), True),
             ("u_rt", C(MaxSize=1, NObjs=2, Budget=3, GetModes=["try", "bl", "timed"], HasRuntime=True, AllowTake=False, AllowRemove=False), True, U),
             ("u_nort", C(MaxSize=1, Preload=1, NObjs=1, Budget=3, GetModes=["try", "bl", "timed"], HasRuntime=False, AllowAdd=False), True, U),
         ],
